@@ -479,6 +479,18 @@ impl DBM {
         tower_id: TowerId,
         locator: Locator,
     ) -> Result<(), SqliteError> {
+        // Nothing to do if this tower does not have the appointment as pending (otherwise we could end up deleting someone
+        // else's only reference to it, and the appointment alongside).
+        let is_pending = self
+            .connection
+            .prepare("SELECT locator FROM pending_appointments WHERE locator=?1 AND tower_id=?2")
+            .unwrap()
+            .exists(params![locator.to_vec(), tower_id.to_vec()])
+            .unwrap();
+        if !is_pending {
+            return Ok(());
+        }
+
         // We will delete data from pending_appointments or from appointments depending on whether the later has a single reference
         // to it or not. If that's the case, deleting the entry from appointments will trigger a cascade deletion of the entry in pending.
         // If there are other references, this will be deleted when removing the last one.
